@@ -23,6 +23,7 @@ type Config struct {
 	MaxPaths  int
 	MaxDepth  int // decisions per path
 	AllocCap  int // max elements for make/append with symbolic size
+	Preempt   int // zzverif.Par: max preemptive context switches per path (-1: unlimited)
 	Workers   int
 	Thorough  bool
 	KeepLog   bool
